@@ -228,6 +228,20 @@ CLAIMED["C19"] = dict(
          "driver, harness door verif::shutdown",
     design="DESIGN.md 5 C19")
 
+CLAIMED["C20"] = dict(
+    text="Coq theorems on the model of the scrubbing functions (Model/Scrub.v): a scrubbed request shows nothing but the placeholder for "
+         "Authorization, Proxy-Authorization and Cookie, whatever and however many values they carried, keeps those names visible, and "
+         "leaves every other header, the method, the URI and the version unchanged; an SNI <credentials>.<host> is shown as "
+         "scrubbed.<host> for every credentials label; the Debug form of presented credentials is a constant. That every log or "
+         "error-text site in lib/src printing a request uses scrub_request is a regenerated scan of all macro invocations; the tie to "
+         "behaviour is the trace-level log capture of tunnel sessions (HTTP/1.1, HTTP/2, all authenticator and SNI configurations, "
+         "accepted / rejected / malformed credentials, every request kind) and of the service channels with unique canaries in every "
+         "secret-bearing field, searched verbatim, as base64 token and decoded; plus the scrub functions against the model",
+    note="partial: proves the scrubbing functions and checks their use structurally; the absence of leaks over all executions is "
+         "exercised, not proved; TLS-layer log lines before the session door and QUIC are covered by facts only; trusted: Coq kernel, "
+         "Model/Scrub.v, the macro scan, extraction + driver, the capture logger, doors verif::session / verif::scrub",
+    design="DESIGN.md 5 C20")
+
 PENDING_REASON = "check under construction in this round (designed in DESIGN.md, not yet wired into ./check)"
 
 
